@@ -30,13 +30,18 @@ FULL = ("slice", None, None, None)
 
 def check_split(rep, repo, name, with_index):
     fi = repo.need_function(SPLIT, name)
-    w = Walker(repo, fi, inline=inline_same_module_private(fi))
+    from ..rules_premise import values_view
+    w = values_view(Walker(repo, fi, inline=inline_same_module_private(fi)))
     X, Y = ("param", "X"), ("param", "Y")
     rng = [e for e in w.events if e.kind == "call" and e.target is not None and e.target[0] == "mod"
            and (e.target[1].startswith("numpy.random.") or e.target[1].startswith("random."))]
     seeds = [e for e in rng if e.target[1].endswith(".seed")]
     draws = [e for e in rng if not e.target[1].endswith(".seed")]
-    ok_seed = len(seeds) == 1 and seeds[0].args == (("param", "random_state"),) and not seeds[0].guards and not seeds[0].loops
+    # (`if random_state is not None:` around the call is the call: seed(None) does not make the result a function of
+    # anything either; every seed VALUE reaches the generator)
+    given = (("cmp", "is not", ("param", "random_state"), ("const", None)), True)
+    ok_seed = len(seeds) == 1 and seeds[0].args == (("param", "random_state"),) and seeds[0].guards in ((), (given,)) \
+        and not seeds[0].loops
     rep.fn("SPLIT-seed", fi, "np.random.seed(random_state) is called unconditionally", ok_seed,
            "the result must be a function of the seed for EVERY seed value (a guarded or missing seed call leaves the "
            "global RNG state in control)")
@@ -136,7 +141,8 @@ def check_split(rep, repo, name, with_index):
 
 def check_merge(rep, repo):
     fi = repo.need_function(SPLIT, "merge")
-    w = Walker(repo, fi, inline=inline_same_module_private(fi))
+    from ..rules_premise import values_view
+    w = values_view(Walker(repo, fi, inline=inline_same_module_private(fi)))
     rets = [e for e in w.events if e.kind == "return" and e.fn is w.entry]
     ok = False
     if len(rets) == 1 and rets[0].value[0] == "tuple" and len(rets[0].value[1]) == 2:
